@@ -505,12 +505,14 @@ func runResponder(hist []*pkt, nackFor []uint16, reuse, rtx bool) ([]string, err
 	if _, err := c.readRTCP(rr); err != nil {
 		return nil, err
 	}
+	// the NACK is answered on goroutines of the interceptor: Close waits for them (C11), and so does the goroutine count; the count alone
+	// proved too weak a signal on a loaded machine (a baseline taken while a helper of the previous run was still counted)
+	_ = ic.Close()
 	kit.WaitGoroutines(base, 10*time.Second)
 	var out []string
 	for _, s := range sink.Calls()[before:] {
 		out = append(out, descRTP(s, rtx))
 	}
-	_ = ic.Close()
 
 	return out, nil
 }
@@ -564,9 +566,11 @@ func TestCallerBuffersNotRetained(t *testing.T) {
 		}
 		var a, b []string
 		var errA, errB error
+		kit.Idle() // the baselines taken inside a run are exact only if nothing of an earlier run is still winding down
 		if o := kit.Guard(60*time.Second, func() { a, errA = sub.run(hist, nackFor, false) }); !o.OK() {
 			t.Fatalf("%s (fresh buffers): %s", sub.name, o)
 		}
+		kit.Idle()
 		if o := kit.Guard(60*time.Second, func() { b, errB = sub.run(hist, nackFor, true) }); !o.OK() {
 			t.Fatalf("%s (reused buffers): %s", sub.name, o)
 		}
